@@ -624,6 +624,104 @@ def handler_stack_ownership(ctx, rule="OWN-handler_stack"):
         ctx.ok(rule, "core.handler_stack", f"{pushes} push/pop pairs, all inside Fn methods")
 
 
+def fnode(ctx, dotted):
+    kind, node, mod, owner = ctx.p.get_function(dotted)
+    ctx.fn(dotted)
+    return node, mod
+
+
+def address_glue(ctx, rule="ROLE-address-glue"):
+    """The path from `g(*args, **kwargs) @ addr` in a @gen body to the active handler: GFI.__call__ (inside a handler) and GFI.T capture
+    exactly (self, args, kwargs) in a Thunk; outside any handler GFI.__call__ returns the return value of simulate on the same arguments;
+    Thunk.__matmul__ hands (addr, gen_fn, args, kwargs) to trace(); trace() calls the innermost handler (handler_stack[-1]) on exactly
+    those four and returns its result.  A dropped/duplicated/reordered component here changes every @gen model at once."""
+    lin = None
+
+    def strip_default(t, pname):
+        """`kwargs or {}` / `kwargs if kwargs is not None else {}` / `{} if kwargs is None else kwargs` stand for kwargs."""
+        P = ("param", pname)
+        if t == P:
+            return P
+        if t[0] == "boolop" and t[1] == "or" and len(t[2]) == 2 and t[2][0] == P and t[2][1] in (("dict", ()),):
+            return P
+        if t[0] == "ifexp" and P in (t[2], t[3]) and (("dict", ()) in (t[2], t[3])):
+            c = t[1]
+            if c == P and t[2] == P:
+                return P
+            if c[0] == "cmp" and P in c[2:] and NONE in c[2:]:
+                if (c[1] in ("is not", "!=") and t[2] == P) or (c[1] in ("is", "==") and t[3] == P):
+                    return P
+        return t
+    # Thunk.__matmul__
+    ev = mk_ev(ctx)
+    dotted = CORE + "Thunk.__matmul__"
+    s = summarize(ctx, ev, dotted)
+    lin = mk_lin(ev)
+    node, _ = fnode(ctx, dotted)
+    ctx.need(len(node.args.args) == 2, f"{dotted}: signature not recognised")
+    A = ("param", node.args.args[1].arg)
+    want = call(N(CORE + "trace"), A, ("attr", SELF, "gen_fn"), ("attr", SELF, "args"), ("attr", SELF, "kwargs"))
+    construct = "core.Thunk.__matmul__"
+    got = lin.norm(s.ret) if s.ret is not None else None
+    if s.ret is not None and (s.ret == want or got == lin.norm(want)):
+        ctx.ok(rule, construct, "trace(addr, self.gen_fn, self.args, self.kwargs)")
+    else:
+        ctx.bad(rule, construct, "trace(addr, self.gen_fn, self.args, self.kwargs)", f"`thunk @ addr` evaluates {short(s.ret or NONE, ev, 160)}: the call recorded in the thunk "
+                "does not reach the handler with its own generative function, positional and keyword arguments", func_loc(ctx, dotted))
+    # trace()
+    ev = mk_ev(ctx)
+    dotted = CORE + "trace"
+    s = summarize(ctx, ev, dotted)
+    construct = "core.trace"
+    node, _ = fnode(ctx, dotted)
+    names = [a.arg for a in node.args.args]
+    ctx.need(len(names) == 4, f"{dotted}: signature not recognised")
+    r = s.ret
+    ok = r is not None and is_call(r) and r[1] == ("idx", N(CORE + "handler_stack"), C(-1)) and not r[3] and len(r[2]) == 4 \
+        and tuple(r[2][:3]) == tuple(("param", n) for n in names[:3]) and strip_default(r[2][3], names[3]) == ("param", names[3])
+    if ok:
+        ctx.ok(rule, construct, "handler_stack[-1](addr, gen_fn, args, kwargs or {}) returned")
+    else:
+        ctx.bad(rule, construct, "innermost handler called on (addr, gen_fn, args, kwargs)", f"trace() evaluates {short(r or NONE, ev, 200)}: the traced call must be interpreted by the "
+                "innermost active handler (handler_stack[-1]) with the address, callee and arguments unchanged, and its result returned", func_loc(ctx, dotted))
+    # GFI.__call__ and GFI.T
+    for meth in ("__call__", "T"):
+        ev = mk_ev(ctx)
+        dotted = CORE + "GFI." + meth
+        s = summarize(ctx, ev, dotted)
+        lin = mk_lin(ev)
+        construct = f"core.GFI.{meth}"
+        ARGS, KW = ("param", "args"), ("param", "kwargs")
+        node, _ = fnode(ctx, dotted)
+        ctx.need(node.args.vararg is not None and node.args.kwarg is not None, f"{dotted}: signature not recognised")
+        ARGS, KW = ("param", node.args.vararg.arg), ("param", node.args.kwarg.arg)
+        thunk = lin.norm(call(N(CORE + "Thunk"), SELF, ARGS, KW))
+        from .util import all_cases
+        bad = []
+        HS = N(CORE + "handler_stack")
+        for asg, leaf in all_cases(s.ret):
+            inside = None
+            for c, v in asg.items():
+                if c == HS or (is_call(c, name="builtins.len") and c[2] == (HS,)) or (is_call(c, name="builtins.bool") and c[2] == (HS,)):
+                    inside = v
+                elif c[0] == "cmp" and HS in subterms(c):
+                    inside = None if inside is None else inside
+            if meth == "T" or inside is True:
+                if lin.norm(leaf) != thunk:
+                    bad.append(f"inside a handler the call evaluates {short(leaf, ev, 120)}, not Thunk(self, args, kwargs)")
+            elif inside is False:
+                sim = ("call", ("attr", SELF, "simulate"), (("star", ARGS),), ((None, KW),))
+                okr = is_call(leaf) and leaf[1][0] == "attr" and leaf[1][2] == "get_retval" and leaf[1][1] == sim and not leaf[2] and not leaf[3]
+                if not okr:
+                    bad.append(f"outside any handler the call evaluates {short(leaf, ev, 120)}, not self.simulate(*args, **kwargs).get_retval()")
+            else:
+                bad.append(f"dispatch on something other than the handler stack being non-empty: {short(s.ret, ev, 120)}")
+        if bad:
+            ctx.bad(rule, construct, "Thunk(self, args, kwargs) under a handler; simulate(...).get_retval() otherwise", "; ".join(dict.fromkeys(bad)), func_loc(ctx, dotted))
+        else:
+            ctx.ok(rule, construct, "captures (self, args, kwargs)")
+
+
 # ====================================================================== Vmap
 VMAP_PREFIX = {
     "simulate": ((), ()),
